@@ -49,7 +49,10 @@ async def _run(rng, desc):
         skw = {}
         if desc.get('lease'):
             from .c14 import ScriptedLeasePublisher
-            skw['lease_publisher'] = ScriptedLeasePublisher([tuple(desc['lease'])])
+            wait, n_, ttl_ = desc['lease']
+            if isinstance(wait, (list, tuple)):
+                wait = wait[i % len(wait)]          # a different lease delay on every connection
+            skw['lease_publisher'] = ScriptedLeasePublisher([(wait, n_, ttl_)])
         server = RSocketServer(link.transports['s'], handler_factory=lambda: h, **skw)
         c = {'link': link, 'server': server, 'handler': h, 'index': i}
         conns.append(c)
@@ -243,7 +246,11 @@ def gen_case(rng):
                                                                              ['rr', 'stream', 'channel'], ['rr', 'rr']]),
                        'before': rng.choice([0.0, 0.01, 0.12, 0.6, rng.random()]),
                        'task_delay': rng.choice([0.0, 0.01, 0.3, 2.5, 5.0])})
-    return {'link': rng.choice(['bytes', 'messages']), 'P': 0.5, 'L': 2.0,
+    lease = None
+    if rng.random() < 0.2:
+        # a lease-honouring client; every server grants a generous lease after its own delay
+        lease = [[rng.choice([0.0, 0.3, 1.0, 2.0]) for _ in range(4)], 100, 60000]
+    return {'link': rng.choice(['bytes', 'messages']), 'P': 0.5, 'L': 2.0, 'lease': lease,
             'connect': rng.choice([('none',), ('none',), ('ticks', 1), ('ticks', 3), ('virtual', 0.01)]),
             'provider_wait': rng.choice([('none',), ('none',), ('ticks', 1), ('ticks', 4), ('virtual', 0.05)]),
             'reconnect_from': rng.choice(['on_close', 'on_keepalive_timeout', 'task']), 'rounds': rounds}
